@@ -1459,7 +1459,7 @@ theorem schema_differs_on_empty :
     resolveSchema tt [⟨['a'], some ⟨[], ['k'], [.dstar], []⟩⟩] (fun _ => some []) = [(['k'], [])] ∧
     resolveExplicit tt [⟨['a'], some ⟨[], ['k'], [.dstar], []⟩⟩] (fun _ => []) = [] := by decide
 
-/-! ## What the hypotheses exclude, and where the real code violates the statement
+/-! ## What the hypotheses exclude, and regression witnesses of repaired defects
 (each input is replayed on the real code by the C06 check: corpus / excluded points) -/
 
 /-- a top-level reserved word is read from the suffixed attribute … -/
